@@ -38,24 +38,35 @@ Section GenExtrapolate.
   Definition full_nores (r : res ((T * T * T * T) * (Z * Z) * unit)) : res (option (T * T * T * T) * option (Z * Z) * option (T * T)) :=
     match r with Ok (e, s, _) => Ok (Some e, Some s, None) | Err => Err end.
 
-  Ltac conv_cases :=
+  Ltac rw_cases :=
     match goal with
     | |- context[convert None ?n ?u ?c] => rewrite (convert_none OP pfwd pinv fac geographic crs_units n u c)
-    | |- context[convert (@Some ?ty ?p) ?n ?u ?c] =>
-      let H := fresh in pose proof (convert_some OP pfwd pinv fac geographic crs_units p n u c) as H;
-      change (@Some (T * T * option utok) p) with (@Some ty p) in H; destruct H as [-> | [? ->]]
     | |- context[validate2 OP None ?n] => change (validate2 OP None n) with (Ok n)
     | |- context[validate4 OP None ?n] => change (validate4 OP None n) with (Ok n)
     | |- context[validate_shape OP None ?n] => change (validate_shape OP None n) with (Ok n)
-    | |- context[validate2 OP (Some ?v) ?n] => destruct (validate2_cases OP (Some v) n) as [-> | ->]
-    | |- context[validate4 OP (Some ?v) ?n] => destruct (validate4_cases OP (Some v) n) as [-> | ->]
-    | |- context[validate_shape OP (Some ?v) ?n] => destruct (validate_shape_cases OP (Some v) n) as [-> | ->]
-    | |- context[round_shape_kw OP ?s ?r ?d] => destruct (round_shape_kw_cases OP s r d) as [[? ->] | ->]
+    end.
+  (* the call the left-hand side is waiting for (program order), split into its outcomes on both sides at once *)
+  Ltac head t := lazymatch t with bind ?x _ => head x | _ => t end.
+  Ltac br_cases :=
+    match goal with
+    | |- ?L = _ =>
+      let h := head L in
+      lazymatch h with
+      | convert (@Some ?ty ?p) ?n ?u ?c =>
+        let H := fresh in pose proof (convert_some OP pfwd pinv fac geographic crs_units p n u c) as H;
+        change (@Some (T * T * option utok) p) with (@Some ty p) in H; destruct H as [H | [? H]]; rewrite !H
+      | validate2 OP (Some ?v) ?n => let E := fresh in destruct (validate2_cases OP (Some v) n) as [E | E]; rewrite !E
+      | validate4 OP (Some ?v) ?n => let E := fresh in destruct (validate4_cases OP (Some v) n) as [E | E]; rewrite !E
+      | validate_shape OP (Some ?v) ?n => let E := fresh in destruct (validate_shape_cases OP (Some v) n) as [E | E]; rewrite !E
+      | round_shape_kw OP ?s ?r ?d => let E := fresh in destruct (round_shape_kw_cases OP s r d) as [[? E] | E]; rewrite !E
+      end
     end.
   Ltac solve_gen :=
     unfold extrapolate, conv_radius_c, conv_radius_n, conv_resolution_c, conv_resolution_n, conv1, validate2s, validate4s,
-      validate_shapes, full, full_nores; unfold param in *;
-    repeat (first [conv_cases | progress cbn [bind fst snd]]); try reflexivity.
+      validate_shapes, full, full_nores, twoT;
+    repeat (first [progress cbn [bind] | progress cbv beta iota zeta delta [fst snd] | rw_cases
+                  | match goal with x : (T * T)%type |- _ => destruct x end | br_cases]);
+    try reflexivity.
 
   Lemma gen_crs_is_model s c r units :
     extrap None (Some s) (Some c) (Some r) None None units
@@ -97,18 +108,23 @@ Section GenExtrapolate.
     extrap None (Some s) (Some c) (Some r) (Some d) None units
     = full (gen_extrapolate_crds OP pfwd pinv fac geographic crs_units tt s c r d tt units).
   Proof. unfold gen_extrapolate_crds. destruct c, s. solve_gen. Qed.
+  Lemma gen_e_is_model e0 e1 e2 e3 units :
+    extrap (Some (e0, e1, e2, e3)) None None None None None units
+    = match gen_extrapolate_e OP pfwd pinv fac geographic crs_units (e0, e1, e2, e3) tt tt tt tt tt units with
+      | Ok (e, _, _) => Ok (Some e, None, None) | Err => Err end.
+  Proof. unfold gen_extrapolate_e. solve_gen. Qed.
   (* nothing to combine: a DynamicAreaDefinition will be made from what is there *)
   Lemma gen_none_is_model units :
     extrap None None None None None None units = Ok (None, None, None) /\
-    gen_extrapolate_none OP pfwd pinv fac geographic crs_units tt tt tt tt tt tt units = Ok (tt, tt, tt).
+    gen_extrapolate_none pfwd pinv fac geographic crs_units tt tt tt tt tt tt units = Ok (tt, tt, tt).
   Proof. split; reflexivity. Qed.
   Lemma gen_shape_only_is_model s units :
     extrap None (Some s) None None None None units = Ok (None, Some s, None) /\
-    gen_extrapolate_s OP pfwd pinv fac geographic crs_units tt s tt tt tt tt units = Ok (tt, s, tt).
+    gen_extrapolate_s pfwd pinv fac geographic crs_units tt s tt tt tt tt units = Ok (tt, s, tt).
   Proof. split; reflexivity. Qed.
 
   (* _validate_variable and the None path of _convert_units, regenerated *)
-  Lemma gen_validate_none_is_model (n : T * T) : gen_validate_none OP tt n = validate2 OP None n.
+  Lemma gen_validate_none_is_model (n : T * T) : gen_validate_none tt n = validate2 OP None n.
   Proof. reflexivity. Qed.
   Lemma gen_validate_pair_is_model (v n : T * T) : gen_validate_pair OP v n = validate2 OP (Some v) n.
   Proof. unfold gen_validate_pair, validate2. destruct (allclose2 OP v n); reflexivity. Qed.
